@@ -63,11 +63,23 @@ func VerifC11_MutationID() {
 	vh.Assert(r.initMutationID(s, start, false) == nil, "init")
 	r.mutCurID += uint64(vh.Choice("advance", 2)) * (StrideMutationID - 1) // also at the stride boundary
 	var a, b uint64
+	ackA, ackB := false, false
+	s.Writes = 0
+	if vh.Param(1) == 1 {
+		s.CrashAt = 0 // the process dies at the first store write attempted from now on
+	}
 	vh.Schedule(vh.Param(0))
-	go func() { a = r.newMutationID() }()
-	go func() { b = r.newMutationID() }()
+	// an id counts as handed out if its call returned before the crashing write was attempted
+	go func() { a = r.newMutationID(); ackA = s.Writes == 0 || s.CrashAt < 0 }()
+	go func() { b = r.newMutationID(); ackB = s.Writes == 0 || s.CrashAt < 0 }()
 	vh.Quiesce()
 	vh.Assert(a != b, "two concurrent requests never get the same mutation id")
+	if vh.Param(1) == 1 {
+		r2 := &repoT{id: r.id, uuid: "r"}
+		vh.Assert(r2.initMutationID(s.Clone(), start, false) == nil, "restart")
+		vh.Assert(!ackA || r2.mutCurID > a, "an id handed out before the crash is not reissued after restart")
+		vh.Assert(!ackB || r2.mutCurID > b, "an id handed out before the crash is not reissued after restart (second request)")
+	}
 	vh.Reach("end")
 }
 
